@@ -8,6 +8,7 @@ OUT=${MATRIX_OUT:-/verif/seeded/MATRIX.tsv}
 [ -z "$1" ] && : > $OUT
 for id in $IDS; do
   prop=${id%-*}
+  if grep -q '"obsolete"' /verif/seeded/$id/meta.json 2>/dev/null; then echo -e "$id\t$prop quick\tobsolete\t(no longer property-breaking on the repaired tree, see meta.json)" >> $OUT; continue; fi
   [ -n "$(git -C /repo status --porcelain)" ] && { echo "/repo not clean"; exit 2; }
   git -C /repo apply /verif/seeded/$id/patch.diff || { echo -e "$id\t$prop\tpatch-does-not-apply" >> $OUT; continue; }
   out=$(./check $prop quick 2>&1); rc=$?
